@@ -11,6 +11,7 @@ pub mod c06;
 pub mod c07;
 pub mod c08;
 pub mod cmp31;
+pub mod poison;
 pub mod c09;
 pub mod c10;
 pub mod c11;
